@@ -44,6 +44,8 @@ func reschedule(ops []Op, variant int) []Op {
 			if i%4 == 0 {
 				out = append(out, Op{K: "reopen", N: 8})
 			}
+		case 6:
+			out = append(out, Op{K: "commit", N: 2})
 		}
 	}
 	return out
